@@ -57,6 +57,7 @@ func LoadEngine(repo string) (*Engine, error) {
 		return nil, err
 	}
 	e.CS = cs
+	e.rebindMovedClosures()
 	return e, nil
 }
 
